@@ -328,6 +328,54 @@ func ruleDashAppend(w *World, r *Report, pf *patchFamily) {
 			r.Check(okB, rule, fmt.Sprintf("%s:append-exit#%d", fnName(fn), n), w.Pos(ret.Pos()),
 				"the exit taken for index -1 (the pointer token `-`) commits only where the hunk removes nothing",
 				"the exit taken for index -1 (the pointer token `-`) can commit although the hunk removes values: a test/remove pair addressed to `-` is accepted without comparing anything, where RFC 6902 fails")
+			// context: test ops folded into Before/After must be enforced somewhere. The indexed path
+			// checks them against the neighbours of the index; the append exit has no index, so it may
+			// commit only where every context element is the boundary marker (nothing to enforce).
+			x := &expectCtx{w: w, pf: pf, fn: fn, d: NewDeriv(w, fn), ea: newErrAnalysis(w), lps: loopsOf(fn)}
+			for _, role := range []string{"before", "after"} {
+				rp := pf.roleParam(fn, role)
+				if rp == nil {
+					continue
+				}
+				acc := EdgeSet{}
+				for _, b2 := range fn.Blocks {
+					c2, t2, _, ok2 := branchEdges(b2)
+					if !ok2 {
+						continue
+					}
+					if cc, isC := c2.(*ssa.Call); isC {
+						if sf := staticCallee(cc); sf != nil && w.helperIs(sf, "isVoid") && len(cc.Call.Args) == 1 && x.d.HasRoot(cc.Call.Args[0], rp) {
+							acc[t2] = true
+						}
+					}
+				}
+				okC := false
+				why := "no loop over the " + role + " context lies between the test for index -1 and this success return"
+				for _, l := range x.roleLoops(rp) {
+					if !edgeDominates(edge, l.Header) && edge.To() != l.Header {
+						continue
+					}
+					hcut := EdgeSet{}
+					for _, p := range l.Header.Preds {
+						for j, sc := range p.Succs {
+							if sc == l.Header {
+								hcut[Edge{p, j}] = true
+							}
+						}
+					}
+					if !cutsOff(fn, hcut, ret.Block()) {
+						continue
+					}
+					if ok3, w3 := x.loopVerified(l, acc); ok3 {
+						okC = true
+					} else {
+						why = w3
+					}
+				}
+				r.Check(okC, rule, fmt.Sprintf("%s:append-exit#%d[%s]", fnName(fn), n, role), w.Pos(ret.Pos()),
+					"the exit taken for index -1 commits only behind a loop over the "+role+" context that lets nothing but the boundary marker pass",
+					"the exit taken for index -1 (the pointer token `-`) commits without looking at the "+role+" context ("+why+"): test ops that the JSON Patch reader folded into the context of an `add …/-` are never evaluated, where RFC 6902 fails on a mismatch")
+			}
 		}
 	}
 	if n == 0 {
